@@ -82,6 +82,7 @@ func (dec *yamlDecoder) processReadStream(reader *bufio.Reader) (io.Reader, stri
 }
 
 func (dec *yamlDecoder) Init(reader io.Reader) error {
+	verifYield("decoder.Init")
 	readerToUse := reader
 	leadingContent := ""
 	dec.bufferRead = bytes.Buffer{}
@@ -111,6 +112,7 @@ func (dec *yamlDecoder) Init(reader io.Reader) error {
 }
 
 func (dec *yamlDecoder) Decode() (*CandidateNode, error) {
+	verifYield("decoder.Decode")
 	var yamlNode yaml.Node
 	err := dec.decoder.Decode(&yamlNode)
 
